@@ -121,9 +121,9 @@ def step_lean(ctx, cfg):
         return False
     out1 = out.replace('\n  ', ' ')
     seen = {}
-    for m in re.finditer(r"'([^']+)' depends on axioms: \[([^\]]*)\]", out1):
+    for m in re.finditer(r"'(\S+)' depends on axioms: \[([^\]]*)\]", out1):
         seen[m.group(1)] = {a.strip() for a in m.group(2).split(',') if a.strip()}
-    for m in re.finditer(r"'([^']+)' does not depend on any axioms", out1):
+    for m in re.finditer(r"'(\S+)' does not depend on any axioms", out1):
         seen[m.group(1)] = set()
     for n in names:
         ax = seen.get(n)
